@@ -306,17 +306,61 @@ def _tainted_locals(prog, fn, seeds: Set[str]) -> Set[str]:
     while changed:
         changed = False
         for t, v, s, k in iter_stores(fn.node):
-            if isinstance(t, ast.Name) and v is not None and t.id not in tl and _expr_tainted(prog, fn, v, tl):
+            idx = int(k[7:-1]) if k.startswith("assign[") and k[7:-1].isdigit() else None
+            if isinstance(t, ast.Name) and v is not None and t.id not in tl and _expr_tainted(prog, fn, v, tl, idx):
                 tl.add(t.id)
                 changed = True
     return tl
 
 
-def _expr_tainted(prog, fn, e, tl: Set[str]) -> bool:
-    for n in ast.walk(e):
-        if isinstance(n, ast.Name) and n.id in tl:
-            return True
-        if _is_time_source(prog, fn, n):
+_RET_TAINT: Dict = {}
+
+
+def _callee_returns_taint(prog, callee: FunctionInfo, tainted_params: Set[str], index: Optional[int] = None) -> bool:
+    """does a package function return a value that depends on the given tainted
+    parameters / on a time source?  (memoised; recursion assumes 'no')"""
+    key = (id(callee.node), tuple(sorted(tainted_params)), index)
+    if key in _RET_TAINT:
+        return _RET_TAINT[key]
+    _RET_TAINT[key] = False  # recursion guard
+    tl = _tainted_locals(prog, callee, set(tainted_params))
+    res = False
+    for n in ast.walk(callee.node):
+        if isinstance(n, ast.Return) and n.value is not None and prog.function_of(n) is callee:
+            v = n.value
+            if index is not None and isinstance(v, ast.Tuple) and index < len(v.elts):
+                v = v.elts[index]
+            if _expr_tainted(prog, callee, v, tl):
+                res = True
+    _RET_TAINT[key] = res
+    return res
+
+
+def _expr_tainted(prog, fn, e, tl: Set[str], index: Optional[int] = None) -> bool:
+    if e is None:
+        return False
+    if _is_time_source(prog, fn, e):
+        return True
+    if isinstance(e, ast.Name):
+        return e.id in tl
+    if isinstance(e, ast.Call):
+        targets = [t for t in prog.resolve_call(fn, e) if isinstance(t, FunctionInfo)]
+        if targets:
+            # package callee: tainted only if its return value depends on tainted arguments
+            for t in targets:
+                b = bind_args(t, e)
+                tp = {p for p, a in b.items() if _expr_tainted(prog, fn, a, tl)}
+                if _callee_returns_taint(prog, t, tp, index):
+                    return True
+            return False
+    for c in ast.iter_child_nodes(e):
+        if isinstance(c, ast.keyword):
+            c = c.value
+        if isinstance(c, ast.comprehension):
+            if _expr_tainted(prog, fn, c.iter, tl):
+                return True
+            continue
+        if isinstance(c, ast.expr) and _expr_tainted(prog, fn, c, tl):
             return True
     return False
 
